@@ -503,7 +503,11 @@ func c03Run(c *sim.Ctx) {
 		// the userspace server processes the message too: when the kernel passed it
 		// on (production behaviour), and — for the differential — when it answered
 		sr := slow(req)
-		if answered && fast != nil {
+		if after, ok2 := hasLease(cl); answered && fast != nil && okLease && ok2 && held && !after && (op.K == "discover" || op.K == "request") {
+			// the lease cleanup ended the lease between the two answers (same instant as its tick):
+			// they were not given "at that moment" of one cache state
+			c.S.Probe("agreement_skipped_lease_ended_in_between")
+		} else if answered && fast != nil {
 			agree(op.K, fast, sr)
 		}
 		if sr != nil {
